@@ -7,6 +7,9 @@
 #include <exception>
 #include <typeinfo>
 #include <unistd.h>
+// output goes through fputs only: harnesses may define printf/puts/vsnprintf/write themselves (capturing seams)
+static void emit(const char *a, const char *b = "", const char *c = "", const char *d = "") { fputs(a, stdout); fputs(b, stdout); fputs(c, stdout); fputs(d, stdout); fputs("\n", stdout); fflush(stdout); }
+static const char *dec(unsigned long v) { static char buf[24]; int k = 23; buf[k] = 0; do { buf[--k] = (char)('0' + v % 10); v /= 10; } while (v); return buf + k; }
 static std::vector<unsigned long> g_vals; static size_t g_idx; static bool g_exhausted;
 static unsigned long nextv() { if (g_idx < g_vals.size()) return g_vals[g_idx++]; g_exhausted = true; return 0; }
 extern "C" {
@@ -15,23 +18,23 @@ unsigned short nondet_ushort() noexcept { return (unsigned short)nextv(); }
 unsigned int   nondet_uint() noexcept { return (unsigned int)nextv(); }
 unsigned long  nondet_ulong() noexcept { return nextv(); }
 bool           nondet_bool() noexcept { return nextv() & 1; }
-void __CPROVER_assume(bool c) noexcept { if (!c) { printf("REPLAY-ASSUME-FAILED\n"); fflush(stdout); _exit(3); } }
+void __CPROVER_assume(bool c) noexcept { if (!c) { emit("REPLAY-ASSUME-FAILED"); _exit(3); } }
 void __CPROVER_assert(bool c, const char *msg) noexcept {
     if (!strncmp(msg, "WITNESS:", 8)) return;
-    if (!c) { printf("REPLAY-ASSERT-FAILED: %s\n", msg); fflush(stdout); _exit(1); }
+    if (!c) { emit("REPLAY-ASSERT-FAILED: ", msg); _exit(1); }
 }
 void vp_global_ctors() noexcept {}
 bool vp_false() noexcept { return false; }
 unsigned long vp_concretize(unsigned long v) noexcept { return v; }
-void vp_note(const char *tag, unsigned long v) noexcept { printf("NOTE %s %lu\n", tag, v); }
+void vp_note(const char *tag, unsigned long v) noexcept { emit("NOTE ", tag, " ", dec(v)); }
 void VP_ENTRY();
 }
 int main(int argc, char **argv) {
     if (argc > 1) { FILE *f = fopen(argv[1], "r"); unsigned long v; if (!f) { perror("values"); return 4; } while (fscanf(f, "%lu", &v) == 1) g_vals.push_back(v); fclose(f); }
     alarm(20);   // watchdog: a hang is a reproduced 'never returns'
     try { VP_ENTRY(); }
-    catch (std::exception &e) { printf("REPLAY-EXCEPTION: %s: %s\n", typeid(e).name(), e.what()); fflush(stdout); _exit(1); }
-    catch (...) { printf("REPLAY-EXCEPTION: unknown\n"); fflush(stdout); _exit(1); }
-    printf("REPLAY-OK%s\n", g_exhausted ? " (values exhausted)" : ""); fflush(stdout);
+    catch (std::exception &e) { emit("REPLAY-EXCEPTION: ", typeid(e).name(), ": ", e.what()); _exit(1); }
+    catch (...) { emit("REPLAY-EXCEPTION: unknown"); _exit(1); }
+    emit("REPLAY-OK", g_exhausted ? " (values exhausted)" : "");
     _exit(0);
 }
